@@ -28,6 +28,7 @@ type Ctx struct {
 	linDepth int
 	preCache map[*ssa.Function][]preCand
 	preBusy  map[*ssa.Function]bool
+	patFns   map[*ssa.Function]bool
 }
 
 func NewCtx(p *load.Prog, prop, config string) *Ctx {
